@@ -147,6 +147,11 @@ impl Transports {
     fn start(seed: u64) -> Transports {
         let scratch = Scratch::new("c16");
         let mut servers = vec![];
+        // a socket file left behind by an instance that was killed is in the way of every filesystem
+        // address, with or without `;` parameters: the service replaces it
+        for name in ["plain.sock", "mode.sock", "params.sock"] {
+            let _stale = std::os::unix::net::UnixListener::bind(scratch.path.join(name));
+        }
         let a = scratch.unix_addr("plain.sock");
         servers.push(("unix-path".to_string(), a.clone(), Server::start(t_service().0, &a, 1, 32, 0)));
         let a = format!("{};mode=0660", scratch.unix_addr("mode.sock"));
@@ -331,8 +336,38 @@ pub fn run_case_a(tr: &mut Transports, svc: &varlink::VarlinkService, syms: &[Sy
     Ok(hung)
 }
 
+/// One connection per transport: a call, 350 ms of silence (several accept-poll intervals), another
+/// call. Every transport answers both.
+fn pause_between_calls(tr: &Transports) -> Result<(), Fail> {
+    for (name, addr, _) in &tr.servers {
+        let where_ = format!("transport[{}]", name);
+        let mut p = connect_via_library(addr, &where_)?;
+        for (k, pause) in [(0usize, 350u64), (1, 0)] {
+            let tok = format!("pause-{}", k);
+            p.send(&encode(&json!({"method": "org.verif.test.Echo", "parameters": {"token": tok, "n": k}}), Style::Compact));
+            match p.wait_piece(|v| v["parameters"]["token"] == tok.as_str(), Duration::from_secs(10)) {
+                vl_model::sock::Wait::Reached => {}
+                vl_model::sock::Wait::Eof => {
+                    return Err(Fail::new(
+                        format!("{}/idle-connection-closed", where_),
+                        format!("call #{} on a connection that had been silent for 350 ms: the service had closed the connection (the other transports answer)", k),
+                    ))
+                }
+                vl_model::sock::Wait::Stalled => return Ok(()),
+            }
+            std::thread::sleep(Duration::from_millis(pause));
+        }
+    }
+    Ok(())
+}
+
 fn part_a(ctx: &mut Ctx, cases: u32, skip: Vec<String>) {
     let mut tr = Transports::start(ctx.seed);
+    ctx.case(Some(hash64(&"pause-between-calls")));
+    ctx.class("A:pause-between-two-calls(every transport)");
+    if let Err(f) = pt::guard(|| pause_between_calls(&tr)) {
+        ctx.violation(&f.key, &f.what, "c16-a", json!({"pause_between_calls_ms": 350}));
+    }
     for s in &skip {
         ctx.exclude(&format!("A:transport-skipped-because-(B)-failed:{}", s));
     }
